@@ -882,7 +882,29 @@ func init() {
 							}
 						}
 					}
+					// later stage calls of the same loop body (by position)
+					laterStages := func(after token.Pos, except ast.Node) int {
+						k := 0
+						for _, c3 := range fi.callsDeep(fi.Decl.Body) {
+							n3 := fi.calleeName(c3)
+							st := n3 == pathW+".gen.inject"
+							for _, o := range order {
+								if n3 == o {
+									st = true
+								}
+							}
+							if st && c3.Pos() > after && fi.enclosingLoop(c3) == fi.enclosingLoop(cl) && (except == nil || !fi.within(c3, except)) {
+								k++
+							}
+						}
+						return k
+					}
 					if is == nil {
+						// `ec.add(stage(…)...)`: whatever it returns is recorded; fine when no stage follows
+						if par, ok := fi.parent[ast.Node(cl)].(*ast.CallExpr); ok && fi.calleeName(par) == fnECAdd && par.Ellipsis.IsValid() && laterStages(cl.End(), nil) == 0 {
+							r.Ok(name+"/stage:"+short, cl.Pos(), "the errors of the last stage %s are recorded directly", short)
+							continue
+						}
 						r.Bad(name+"/stage:"+short, cl.Pos(), "no error test follows the stage")
 						continue
 					}
@@ -892,7 +914,12 @@ func init() {
 							added = true
 						}
 					}
-					r.Check(added && terminates(is.Body), name+"/stage:"+short, is.Pos(), "a failing %s records its errors and skips to the next function", short)
+					// "skips": the failing branch ends the iteration, or every later stage sits in the else branch
+					skips := terminates(is.Body)
+					if !skips && is.Else != nil && laterStages(is.Body.End(), is.Else) == 0 {
+						skips = true
+					}
+					r.Check(added && skips, name+"/stage:"+short, is.Pos(), "a failing %s records its errors and skips to the next function", short)
 				}
 			}
 		})
